@@ -12,6 +12,7 @@ import (
 
 	consumerante "github.com/cosmos/interchain-security/v7/app/consumer/ante"
 	ibcconsumerkeeper "github.com/cosmos/interchain-security/v7/x/ccv/consumer/keeper"
+	ccvtypes "github.com/cosmos/interchain-security/v7/x/ccv/types"
 )
 
 // HandlerOptions extend the SDK's AnteHandler options by requiring the IBC
@@ -57,6 +58,8 @@ func NewAnteHandler(options HandlerOptions) (sdk.AnteHandler, error) {
 		ante.NewIncrementSequenceDecorator(options.AccountKeeper),
 		ibcante.NewRedundantRelayDecorator(options.IBCKeeper),
 	}
+
+	anteDecorators = ccvtypes.VerifAnte(anteDecorators)
 
 	return sdk.ChainAnteDecorators(anteDecorators...), nil
 }
